@@ -132,7 +132,7 @@ def oracle(lines, im):
                 return ("pagination lost/added keys: got %s want %s" % ([x.hex() for x in got], [x.hex() for x in want]), dict(sg, what="lost-key"))
             if got != want:
                 return ("pagination order differs from the channel's sort order: got %s want %s" % ([x.hex() for x in got], [x.hex() for x in want]), dict(sg, what="order"))
-            if lim > 0 and (any(s != lim for s in sizes[:-1]) or sizes[-1] > lim or (len(sizes) > 1 and sizes[-1] == 0)):
+            if lim > 0 and (any(s != lim for s in sizes[:-1]) or sizes[-1] > lim):
                 return ("page sizes %s do not make progress in steps of %d" % (sizes, lim), dict(sg, what="page-size"))
         elif ws[0] == "state" and f.get("status") == "ok" and kv["key"] != "-":
             k = refmap.unhex(kv["key"])
@@ -173,7 +173,14 @@ def run(ctx):
         pref = any(a != b and a and b and a.startswith(b) for a in keys for b in keys)
         return len(keys) >= 2 and (pref or len(set(scores)) < len(scores))
     maplib.DRIVER = "drv_c21"
+
+    def proj(line):
+        # the statement does not fix the number of requests: a trailing empty page is no violation
+        if " n=" in line and " sizes=" in line:
+            return " ".join(w for w in line.split() if not (w.startswith("n=") or w.startswith("sizes=")))
+        return line
     _, _, model_ok = maplib.compare_all(ctx, binary, ops, "map state pagination deviates from the reference", nontrivial,
-                                        extra_oracle=oracle, driver_name="Drivers/C21.lean (Model/MapHub.lean, Model/MapPage.lean)")
+                                        extra_oracle=oracle, driver_name="Drivers/C21.lean (Model/MapHub.lean, Model/MapPage.lean)",
+                                        ref_proj=proj)
     if not (proofs_ok and model_ok):
         ctx.proof_broken()
